@@ -346,7 +346,8 @@ class FitLoop(_VecMixin):
             ("weights_are_the_distribution_of_the_returned_iteration", w == Qs.raw(best)),
             ("best_gap_within_precision_of_the_smallest_gap", ForAll([j], Implies(And(0 <= j, j < n), to_real(bg) <= gaps.raw(j) + z3.RealVal("1e-8") if False else to_real(bg) <= gaps.raw(j) + z3.Q(1, 100000000)))),
             ("later_iterations_are_worse_by_more_than_precision", ForAll([j], Implies(And(best < j, j < n), gaps.raw(j) > to_real(bg) - z3.Q(1, 100000000)))),
-            ("stopping_early_certifies_convergence", Implies(stopped_early, to_real(bg) < self.nu + z3.Q(1, 100000000)))]
+            ("stopping_early_certifies_convergence", Implies(stopped_early, to_real(bg) < self.nu + z3.Q(1, 100000000))),
+            ("an_early_stop_happens_at_an_iteration_whose_gap_is_strictly_below_nu", Implies(stopped_early, gaps.raw(n - 1) < self.nu))]
 
 
 
@@ -365,7 +366,7 @@ def _fit_native_search(self, ob, r):
     import os
     from ..bounded import C08 as X
     cases = [c for c in X._cases(0, 3, 2, 40) if c[7] <= 20]
-    zero_nu = [c[:7] + (20,) + c[8:10] + (0.0,) + c[11:] for c in cases if not c[8]][:30]          # requested nu = 0: fitting must never stop early
+    zero_nu = [c[:7] + (20,) + c[8:10] + (0.0,) + c[11:] for c in cases if not c[8]][:30] + [c[:7] + (20,) + c[8:10] + (0.0,) + c[11:] for c in cases if c[8]][:30]          # requested nu = 0: fitting must never stop early
     # the rare histories (a predictor discovered by the gap evaluation before it is selected, non-monotone gaps) need the EG iterate to be returned,
     # i.e. run_linprog_step=False
     cases = zero_nu + [c for c in cases if c[8]][:60] + [c for c in cases if not c[8]][:550]
